@@ -6,12 +6,17 @@ import warnings
 
 ID = 'C18'
 LEVEL = 'other'
-TARGETS = ['selfies/grammar_rules.py::process_branch_symbol',
+TARGETS = ['selfies/compatibility.py::modernize_symbol',
+           'selfies/utils/smiles_utils.py::atom_to_smiles',
+           'selfies/grammar_rules.py::process_branch_symbol',
            'selfies/grammar_rules.py::process_ring_symbol',
            'selfies/utils/smiles_utils.py::smiles_to_atom']
 ASSUMPTIONS = ["atom-symbol contracts (process_atom_symbol, _process_atom_selfies_no_cache, smiles_to_atom, tokenize_smiles) assume ASCII input of at most 4000 characters: Unicode digits matched by \\\\d and CPython's 4300-digit int() limit are recorded known findings", "regex match groups are modelled as SOME decomposition of the string into the pattern's top-level pieces (sound over-approximation of the greedy choice); functools.partial(Atom, **kw) is modelled as a heap object whose call constructs a fresh Atom"]
 EXPLANATION = (
-    "BOUNDED stand-in (not counted as proved) plus every deductive clause listed in coverage.clauses. GROUND (finite, "
+    "PROVED for every ASCII symbol: modernize_symbol leaves a symbol that is neither a legacy branch/ring name nor an "
+    "'...expl]' atom untouched (the conservative-extension clause at symbol level), maps the 21 legacy names to the "
+    "documented modern names, and re-spells '[<bond><atom>expl]' keeping the bracket and the bond prefix; plus every "
+    "deductive clause listed in coverage.clauses. The rest is a BOUNDED stand-in (not counted as proved). GROUND (finite, "
     "complete): the update table of the running module equals the documented legacy->modern mapping for all L, M in "
     "1..3. Bounded: (1) decoder(x, compatible=True) == decoder(x) for every modern-only string of the C02 covering "
     "domain; (2) for strings mixing modern and legacy symbols (all [BranchL_M], [Expl=RingL], [Expl#RingL], "
